@@ -14,6 +14,10 @@ use std::sync::atomic::{AtomicBool, Ordering};
 use std::sync::mpsc::{channel, Receiver};
 use std::time::{Duration, Instant};
 
+macro_rules! enote {
+    ($($arg:tt)*) => { crate::core::note(&format!($($arg)*)) };
+}
+
 pub type Factory = fn(Tier) -> Box<dyn Property>;
 
 pub struct RunConfig {
@@ -74,11 +78,15 @@ pub enum ExecError {
 }
 
 enum Exec {
-    InProc(Box<dyn Property>),
+    InProc {
+        p: Box<dyn Property>,
+        pending: Vec<Outcome>,
+    },
     Worker {
         id: String,
         tier: Tier,
         w: Option<Worker>,
+        pending: Vec<Outcome>,
     },
 }
 
@@ -89,26 +97,55 @@ impl Exec {
                 id: id.to_string(),
                 tier,
                 w: None,
+                pending: vec![],
             }
         } else {
-            Exec::InProc(factory(tier))
+            Exec::InProc {
+                p: factory(tier),
+                pending: vec![],
+            }
         }
     }
 
+    /// Run a case and fold its sub-cases: passing sub-cases are handed to `sink`
+    /// (statistics); the first failing one (or, without failure, the last) is returned.
     fn run(&mut self, c: &CaseRef) -> Result<Outcome, ExecError> {
+        let mut all = self.run_all(c)?;
+        if all.is_empty() {
+            return Ok(Outcome::discard("empty batch", format!("{:?}", c)));
+        }
+        if let Some(i) = all.iter().position(|o| o.is_fail()) {
+            let f = all.remove(i);
+            all.truncate(i);
+            self.pending().extend(all);
+            return Ok(f);
+        }
+        let last = all.pop().unwrap();
+        self.pending().extend(all);
+        Ok(last)
+    }
+
+    fn pending(&mut self) -> &mut Vec<Outcome> {
         match self {
-            Exec::InProc(p) => {
+            Exec::InProc { pending, .. } => pending,
+            Exec::Worker { pending, .. } => pending,
+        }
+    }
+
+    fn run_all(&mut self, c: &CaseRef) -> Result<Vec<Outcome>, ExecError> {
+        match self {
+            Exec::InProc { p, .. } => {
                 let r = catch(std::panic::AssertUnwindSafe(|| p.run_case(c)));
                 match r {
                     Ok(o) => Ok(o),
                     Err(pi) => {
                         let mut o = Outcome::pass(format!("{:?}", c));
                         o.fail(&pi.sig(), format!("panic: {} at {}", pi.msg, pi.loc));
-                        Ok(o)
+                        Ok(vec![o])
                     }
                 }
             }
-            Exec::Worker { id, tier, w } => {
+            Exec::Worker { id, tier, w, .. } => {
                 if w.is_none() {
                     *w = Some(
                         Worker::spawn(id, *tier)
@@ -136,8 +173,15 @@ impl Exec {
                     Some(l) => {
                         let j: J = serde_json::from_str(&l)
                             .map_err(|e| ExecError::Harness(format!("bad worker reply: {}", e)))?;
-                        Outcome::from_json(&j)
-                            .ok_or_else(|| ExecError::Harness("bad worker reply shape".into()))
+                        let arr = j
+                            .as_array()
+                            .ok_or_else(|| ExecError::Harness("bad worker reply shape".into()))?;
+                        arr.iter()
+                            .map(|x| {
+                                Outcome::from_json(x)
+                                    .ok_or_else(|| ExecError::Harness("bad worker reply shape".into()))
+                            })
+                            .collect()
                     }
                     None => {
                         // the worker died: abort, stack overflow, OOM kill …
@@ -159,7 +203,7 @@ impl Exec {
                             &format!("abort:{}", how),
                             format!("worker process died ({}) while running the case", how),
                         );
-                        Ok(o)
+                        Ok(vec![o])
                     }
                 }
             }
@@ -273,7 +317,11 @@ fn run_shard(
             break;
         }
         let c = CaseRef::Fixed(i);
-        match exec.run(&c) {
+        let r = exec.run(&c);
+        for po in exec.pending().drain(..) {
+            stats.absorb(&po);
+        }
+        match r {
             Ok(o) => {
                 if let Verdict::Fail { sig, .. } = &o.verdict {
                     if known_keys.contains(sig) {
@@ -330,6 +378,16 @@ fn run_shard(
         }
         let c = CaseRef::Tape(tape.clone());
         let r = exec_cell.borrow_mut().run(&c);
+        {
+            let mut ex = exec_cell.borrow_mut();
+            let pend: Vec<Outcome> = ex.pending().drain(..).collect();
+            if !failed.get() {
+                let mut st = stats_cell.borrow_mut();
+                for po in &pend {
+                    st.absorb(po);
+                }
+            }
+        }
         match r {
             Ok(o) => {
                 if let Verdict::Fail { sig, msg } = &o.verdict {
@@ -415,21 +473,21 @@ pub fn run_check(id: &'static str, factory: Factory, cfg: RunConfig) -> i32 {
         let text = match std::fs::read_to_string(path) {
             Ok(t) => t,
             Err(e) => {
-                eprintln!("cannot read replay {}: {}", path.display(), e);
+                enote!("cannot read replay {}: {}", path.display(), e);
                 return 2;
             }
         };
         let j: J = match serde_json::from_str(&text) {
             Ok(j) => j,
             Err(e) => {
-                eprintln!("bad replay file: {}", e);
+                enote!("bad replay file: {}", e);
                 return 2;
             }
         };
         let c = match j.get("case").and_then(CaseRef::from_json) {
             Some(c) => c,
             None => {
-                eprintln!("replay file has no case");
+                enote!("replay file has no case");
                 return 2;
             }
         };
@@ -464,11 +522,11 @@ pub fn run_check(id: &'static str, factory: Factory, cfg: RunConfig) -> i32 {
                 }
             }
             Err(ExecError::Timeout) => {
-                eprintln!("INCONCLUSIVE: case exceeded the wall-clock watchdog");
+                enote!("INCONCLUSIVE: case exceeded the wall-clock watchdog");
                 2
             }
             Err(ExecError::Harness(e)) => {
-                eprintln!("harness error: {}", e);
+                enote!("harness error: {}", e);
                 2
             }
         };
@@ -514,9 +572,9 @@ pub fn run_check(id: &'static str, factory: Factory, cfg: RunConfig) -> i32 {
                     }
                 }
                 Err(ExecError::Timeout) => {
-                    eprintln!("INCONCLUSIVE: regression {} timed out", f.display());
+                    enote!("INCONCLUSIVE: regression {} timed out", f.display());
                 }
-                Err(ExecError::Harness(e)) => eprintln!("harness error: {}", e),
+                Err(ExecError::Harness(e)) => enote!("harness error: {}", e),
             }
         }
     }
@@ -542,14 +600,14 @@ pub fn run_check(id: &'static str, factory: Factory, cfg: RunConfig) -> i32 {
                             let path = write_replay(&root, id, cfg.seed, violations.len(), &c, &o);
                             violations.push((path, format!("{}: {}", sig, clip(msg, 300))));
                         }
-                        _ => eprintln!(
+                        _ => enote!(
                             "note: open finding {} no longer reproduces from {}",
                             f.key, f.replay
                         ),
                     },
-                    Err(_) => eprintln!("note: open finding {} probe did not finish", f.key),
+                    Err(_) => enote!("note: open finding {} probe did not finish", f.key),
                 },
-                None => eprintln!("note: open finding {} has no readable replay {}", f.key, f.replay),
+                None => enote!("note: open finding {} has no readable replay {}", f.key, f.replay),
             }
         }
     }
@@ -695,7 +753,7 @@ pub fn run_check(id: &'static str, factory: Factory, cfg: RunConfig) -> i32 {
     let _ = std::fs::create_dir_all(&evdir);
     let evpath = evdir.join(format!("{}.json", id));
     if let Err(e) = std::fs::write(&evpath, serde_json::to_string_pretty(&ev).unwrap() + "\n") {
-        eprintln!("cannot write evidence {}: {}", evpath.display(), e);
+        enote!("cannot write evidence {}: {}", evpath.display(), e);
         return 2;
     }
 
@@ -719,7 +777,7 @@ pub fn run_check(id: &'static str, factory: Factory, cfg: RunConfig) -> i32 {
     }
     if !inconclusive.is_empty() {
         for m in &inconclusive {
-            eprintln!("INCONCLUSIVE: {}", m);
+            enote!("INCONCLUSIVE: {}", m);
         }
         return 2;
     }
@@ -773,16 +831,17 @@ pub fn worker_main(factory: Factory, tier: Tier) {
                     None => continue,
                 };
                 let r = catch(std::panic::AssertUnwindSafe(|| prop.run_case(&c)));
-                let o = match r {
+                let os = match r {
                     Ok(o) => o,
                     Err(pi) => {
                         let mut o = Outcome::pass(format!("{:?}", c));
                         o.fail(&pi.sig(), format!("panic: {} at {}", pi.msg, pi.loc));
-                        o
+                        vec![o]
                     }
                 };
+                let arr = J::Array(os.iter().map(|o| o.to_json()).collect());
                 let mut out = stdout.lock();
-                let _ = writeln!(out, "{}", o.to_json());
+                let _ = writeln!(out, "{}", arr);
                 let _ = out.flush();
             }
         })
